@@ -240,6 +240,11 @@ class BuiltinsMixin(AccessMixin):
 
     def bi_open(self, args, kwargs, node, frame):
         self.event("external-call", name="open", args=args, kwargs=kwargs, node=node, where=frame.where(node))
+        hook = getattr(self, "external_hook", None)
+        if hook is not None:
+            r = hook(External("open"), args, kwargs, node, frame)
+            if r is not None:
+                return r
         return External("open()")
 
     def bi_min(self, args, kwargs, node, frame):
